@@ -42,7 +42,7 @@ BOUNDED = [
         "script": "replay/c11_native.py",
         "args_quick": ["--seeds", "4"],
         "args_thorough": ["--seeds", "32"],
-        "bound": "10 scripts (chains, self loop, diamond paths, metadata-positional INSERT, wildcard with metadata incl. the repaired D12 join, multi-pair RENAME, CTEs) x PYTHONHASHSEED in 0..3 (thorough 0..31), canonical dump of every public accessor; all 6 orders of the table accessors + 4 mixed/repeated orders on one runner",
+        "bound": "12 scripts (write-only statement, names differing only in letter case, chains, self loop, diamond paths, metadata-positional INSERT, wildcard with metadata incl. the repaired D12 join, multi-pair RENAME, CTEs) x PYTHONHASHSEED in 0..3 (thorough 0..31), canonical dump of every public accessor; all 6 orders of the table accessors + 4 mixed/repeated orders on one runner",
     }
 ]
 LEVEL_TEXT = (
